@@ -528,6 +528,7 @@ pub proof fn lemma_ack_frequency_append(a: u64, b: u64, c: u64, d: u64, t: Seq<u
     ensures enc_ack_frequency(a, b, c, d, e()) + t =~= enc_ack_frequency(a, b, c, d, t) {}
 /// frames that consist of a type and one or two variable-length integers (RFC 9000 section 19; encoded inline by the library)
 pub open spec fn enc_ty1(ty: u64, a: u64, t: Seq<u8>) -> Seq<u8> { pv(ty, pv(a, t)) }
+pub open spec fn enc_new_cid_head(sq: u64, rpt: u64, n: u8, body: Seq<u8>) -> Seq<u8> { pv(0x18, pv(sq, pv(rpt, seq![n] + body))) }
 pub open spec fn enc_ty2(ty: u64, a: u64, b: u64, t: Seq<u8>) -> Seq<u8> { pv(ty, pv(a, pv(b, t))) }
 //@ only a
 impl AckFrequency {
@@ -758,6 +759,11 @@ impl Iter {
             forall|x: u64, t: Seq<u8>| old(self).bytes@ == #[trigger] pv(0x1b, benc64(x) + t) ==> (r matches Ok(Frame::PathResponse(v)) && v == x) && final(self).bytes@ == t,
             forall|id: u64, code: u64, t: Seq<u8>| ok62(id) && ok62(code) && old(self).bytes@ == #[trigger] enc_stop_sending(id, code, t)
                 ==> (r matches Ok(Frame::StopSending(f)) && f.id.0 == id && f.error_code.0 == code) && final(self).bytes@ == t,
+            // NEW_CONNECTION_ID: every well-formed image (retire_prior_to <= sequence, 1..=20 CID bytes, 16 token bytes) is accepted, with its numbers,
+            // and exactly the frame is consumed (the CID / token bytes themselves go through opaque constructors)
+            forall|sq: u64, rpt: u64, n: u8, body: Seq<u8>| ok62(sq) && ok62(rpt) && rpt <= sq && 1 <= n <= 20 && body.len() >= n + 16
+                && old(self).bytes@ == #[trigger] enc_new_cid_head(sq, rpt, n, body)
+                ==> (r matches Ok(Frame::NewConnectionId(f)) && f.sequence == sq && f.retire_prior_to == rpt) && final(self).bytes@ == body.skip(n + 16),
 //@ endonly
 //@ only b
             // length-prefixed payloads: the payload comes back byte-identical
